@@ -37,6 +37,12 @@ def prog_text(p):
 def rand_prog(r, reject_w=0, nkeys=4):
     """A small audit program; reject_w in 0..100 = chance (percent) that it fails at origin for sure."""
     p = []
+    if r.below(3) == 0:
+        # a "quiet" command: writes no fact (nothing, or effects only)
+        p = [("E", r.below(900) + 100) for _ in range(r.choice([0, 0, 1, 2]))]
+        if r.below(100) < reject_w:
+            p.append(("R",))
+        return tuple(p)
     for _ in range(r.choice([0, 1, 1, 2, 2, 3])):
         k = r.below(nkeys)
         c = r.below(100)
@@ -155,7 +161,7 @@ def gen_dag(r, n, gid=None, reject_w=8, merge_w=18, fin_w=3, deep_w=20, nkeys=4)
 # op forms: ("open",t) ("add",t,[ids]) ("flush",t) ("commit",t)
 #           ("action",dump,fail,[(id,prio,prog)]) ("probe",id,mc) ("sess",)
 def gen_history(r, d, ntx=2, p_dup=8, p_bad=5, p_flush=10, p_commit=8, p_action=6, p_probe=3, extra_cmds=None,
-                allow_actions=True, target=None):
+                allow_actions=True, target=None, p_fault=0):
     """Deliver the commands of `d` (optionally only the causally closed subset `target`) through `ntx`
     concurrently open transactions with duplicates, out-of-order deliveries, flushes, commits and actions."""
     ops = []
@@ -181,6 +187,8 @@ def gen_history(r, d, ntx=2, p_dup=8, p_bad=5, p_flush=10, p_commit=8, p_action=
             ops.append(("flush", t))
             continue
         if c < p_flush + p_commit:
+            if committed_guess and r.below(100) < p_fault:
+                ops.append(("fault", "commit", 1))
             ops.append(("commit", t))
             committed_guess |= known      # optimistic
             do_open(t)
@@ -192,6 +200,8 @@ def gen_history(r, d, ntx=2, p_dup=8, p_bad=5, p_flush=10, p_commit=8, p_action=
                 next_action_id[0] += 1
                 cmds.append((next_action_id[0], r.choice([0, 1, 2]), rand_prog(r, 6)))
             fail = r.choice([None, None, None, 0, k, r.below(k + 1)])
+            if r.below(100) < p_fault:
+                ops.append(("fault", "commit", 1))
             ops.append(("action", r.below(3) == 0, fail, cmds))
             continue
         if c < p_flush + p_commit + p_action + p_probe:
@@ -264,6 +274,11 @@ def case_text(name, backend, gid, d, ops):
             out.append("o probe %d %d" % (o[1], o[2]))
         elif o[0] == "sess":
             out.append("o sess")
+        elif o[0] == "fault":
+            out.append("o fault %s %d" % (o[1], o[2]))
+        elif o[0] == "newgraph":
+            cm = ",".join("%d:%s:%s" % (i, prio_text(p), prog_text(pr)) for (i, p, pr) in o[2]) or "-"
+            out.append("o newgraph %s %s" % ("-" if o[1] is None else str(o[1]), cm))
     out.append("end")
     return "\n".join(out) + "\n"
 
@@ -309,11 +324,12 @@ def run_harness(ctx, binp, cases):
 
 # ---------------------------------------------------------------- encoding the implementation's output as model observations
 PE = {"Rejected": 0, "InternalError": 2, "Write": 3, "Read": 4, "Panic": 5, "Bug": 6}
-SE = {"NoSuchStorage": 0, "EmptyPerspective": 1, "PerspectiveHeadMismatch": 2}
+SE = {"NoSuchStorage": 0, "EmptyPerspective": 1, "PerspectiveHeadMismatch": 2, "IoError": 3, "StorageExists": 4}
 
 
 def enc_res(res):
     """harness result string -> the model's enc_res list, or None if the class has no model counterpart."""
+    res = res.split(";")[0]
     if res == "ok":
         return [0]
     if res.startswith("ok:"):
@@ -392,6 +408,11 @@ def case_coq(idx, backend, gid, d, ops, outs):
             xs.append("XProbe %d %d" % (o[1], o[2]))
         elif o[0] == "sess":
             xs.append("XSess")
+        elif o[0] == "fault":
+            xs.append("XFaultCommit")
+        elif o[0] == "newgraph":
+            pcs = cl(o[2], lambda c: "(Build_pubcmd %d %s %d)" % (c[0], prio_coq(c[1]), body(c[2], 0)))
+            xs.append("XNewGraph %s %s" % ("None" if o[1] is None else "(Some %d%%nat)" % o[1], pcs))
     return ("Definition progs%d : list (list aop) := %s.\n"
             "Definition ops%d : list xop := %s.\n"
             "Definition exp%d : list obs := %s.\n"
@@ -501,6 +522,36 @@ def fixed_scenarios():
                                    ("commit", 1)]))
     out.append(("Mtwo-merges", dm, [("open", 0), ("add", 0, [1, 2, 3, 4]), ("add", 0, [5]), ("add", 0, [m25]), ("add", 0, [m45]),
                                     ("add", 0, [2]), ("add", 0, [4]), ("add", 0, [m25]), ("commit", 0)]))
+    # a braid whose base lands in the MIDDLE of a segment: [2,3,4] is one segment, 2 and 3 write no facts, 4 does;
+    # the merge of 5 (child of 3) and 6 (child of 2) braids with base 3; same DAG under another segmentation
+    mq = merge_id(5, 6)
+    dq = dag([(1, "i", (), 1, (("S", 0, 1),)), (2, 1, (1,), 0, (("E", 5),)), (3, 9, (2,), 0, ()), (4, 1, (3,), 0, (("A", 0, 4), ("S", 2, 4))),
+              (5, 1, (3,), 0, (("A", 0, 5),)), (6, 1, (2,), 0, (("A", 0, 6),)), (mq, "m", (5, 6), 0, ()), (7, 1, (mq,), 0, (("A", 0, 7), ("C", 2, 3)))])
+    out.append(("quiet-mid-a", dq, [("open", 0), ("add", 0, [1]), ("add", 0, [2, 3, 4]), ("add", 0, [5]), ("add", 0, [6]), ("add", 0, [mq]),
+                                    ("add", 0, [7]), ("commit", 0), ("sess",)]))
+    out.append(("quiet-mid-b", dq, [("open", 0), ("add", 0, [1]), ("add", 0, [2]), ("flush", 0), ("add", 0, [3]), ("flush", 0), ("add", 0, [4]),
+                                    ("flush", 0), ("add", 0, [6]), ("add", 0, [5]), ("add", 0, [mq]), ("flush", 0), ("add", 0, [7]),
+                                    ("commit", 0), ("sess",)]))
+    out.append(("quiet-mid-c", dq, [("open", 0), ("add", 0, [1, 2, 3, 4]), ("commit", 0), ("open", 1), ("add", 1, [5]), ("commit", 1),
+                                    ("open", 2), ("add", 2, [6]), ("commit", 2), ("sess",), ("action", True, None, [(12, 1, (("A", 0, 12),))])]))
+    # the storage fails at Write::commit during a transaction commit / an action: nothing may change
+    out.append(("fault-commit", d, [("open", 0), ("add", 0, [1, 2]), ("add", 0, [5]), ("commit", 0), ("open", 0), ("add", 0, [3]),
+                                    ("fault", "commit", 1), ("commit", 0), ("sess",), ("open", 0), ("add", 0, [3]), ("commit", 0)]))
+    out.append(("fault-action", d, [("open", 0), ("add", 0, [1, 2]), ("add", 0, [5]), ("commit", 0), ("fault", "commit", 1),
+                                    ("action", True, None, [(12, 1, (("A", 0, 12), ("E", 9)))]), ("sess",), ("probe", 12, 3),
+                                    ("action", False, None, [(12, 1, (("A", 0, 12),))]), ("fault", "commit", 1),
+                                    ("action", False, 1, [(13, 1, ())]), ("action", False, None, [(13, 1, ())])]))
+    # ClientState::new_graph with an init action publishing 1, 2, 3 commands: the graph id is the id of the FIRST one
+    for k in (1, 2, 3):
+        dn = dag([(100, "i", (), 1, (("S", 0, 1),)), (101, 1, (100,), 0, (("A", 0, 2),)), (102, 1, (101,), 0, (("A", 0, 3),)),
+                  (110, 1, (100 + k - 1,), 0, (("A", 0, 9),))])
+        pubs = [(100, "i", (("S", 0, 1),)), (101, 1, (("A", 0, 2),)), (102, 1, (("A", 0, 3),))][:k]
+        out.append(("newgraph%d" % k, dn, [("open", 0), ("newgraph", None, pubs), ("add", 0, [110]), ("add", 0, [100]), ("commit", 0),
+                                           ("newgraph", None, pubs[:1]), ("sess",)]))
+    dn = dag([(100, "i", (), 1, (("S", 0, 1),)), (101, 1, (100,), 0, ())])
+    out.append(("newgraph-fail", dn, [("newgraph", 1, [(100, "i", (("E", 3), ("S", 0, 1))), (101, 1, ())]), ("newgraph", None, []),
+                                      ("open", 0), ("add", 0, [101]), ("newgraph", None, [(100, "i", (("S", 0, 1),)), (101, 1, ())]),
+                                      ("add", 0, [101]), ("commit", 0)]))
     # two transactions racing, the loser keeps working and commits again
     out.append(("race", d, [("open", 0), ("open", 1), ("add", 0, [1, 2]), ("add", 1, [5]), ("commit", 1), ("add", 0, [3]),
                             ("commit", 0), ("open", 0), ("add", 0, [2, 3]), ("commit", 0), ("sess",), ("probe", 3, 2)]))
@@ -619,6 +670,12 @@ def parse_case_text(txt):
                 cur[4].append(("probe", int(f[2]), int(f[3])))
             elif k == "sess":
                 cur[4].append(("sess",))
+            elif k == "fault":
+                cur[4].append(("fault", f[2], int(f[3])))
+            elif k == "newgraph":
+                cmds = [] if f[3] == "-" else [(int(c.split(":", 2)[0]), parse_prio(c.split(":", 2)[1]), parse_prog(c.split(":", 2)[2]))
+                                               for c in f[3].split(",")]
+                cur[4].append(("newgraph", None if f[2] == "-" else int(f[2]), cmds))
         elif f[0] == "end":
             cases.append(tuple(cur))
     return cases
